@@ -686,7 +686,7 @@ func run(r *mon.Report, tier string, idx int, rng *rand.Rand) {
 func init() {
 	reg.Register(&reg.Prop{
 		ID: "C18", Level: "exploration",
-		Rule: "each case = cluster grown through the real pipeline (2-4 provisioning rounds, random launch choices, 30-70% of the workload removed, drifted / NotReady / uninitialised nodes, 1-3 pools with shared or per-pool catalogs incl. reserved offerings, minValues, budgets) decorated with bound pods carrying host ports, CSI volumes with CSINode limits, topology spread with matchLabelKeys, required/preferred pod (anti-)affinity, PDBs, do-not-disrupt, a Service + ReplicaSet (default topology spread), and pending pods (valid, missing PVC, refusing Karpenter nodes, unbound WaitForFirstConsumer PVC); then 1-10 (quick) / 1-20 (thorough) consecutive simulations drawn from {disruption.SimulateScheduling on candidate subsets of GetCandidates (method filter or any disruptable node, same Candidate objects re-used 1-3 times), every Method's ComputeCommands with real or all-zero budget mapping and no StartCommand, Provisioner.Schedule without creating NodeClaims} under {live, already expired, asynchronously cancelled, k-th API call times out} contexts, with occasional legitimate world changes in between (clock step, new pending pod, forgotten consolidation memo, one real disruption reconcile that starts commands). Around every simulation the complete digest (API objects + write log + provider calls, cluster state incl. unexported per-node maps, provider instance types/offerings incl. slice order) is compared. Non-trivial = a simulation executed inside a digest window; distinct by (kind, method, #candidates bucket, context mode, outcome). In the -race binary every second case runs its simulations concurrently with informer re-deliveries (SyncState in another goroutine).",
+		Rule:  "each case = cluster grown through the real pipeline (2-4 provisioning rounds, random launch choices, 30-70% of the workload removed, drifted / NotReady / uninitialised nodes, 1-3 pools with shared or per-pool catalogs incl. reserved offerings, minValues, budgets) decorated with bound pods carrying host ports, CSI volumes with CSINode limits, topology spread with matchLabelKeys, required/preferred pod (anti-)affinity, PDBs, do-not-disrupt, a Service + ReplicaSet (default topology spread), and pending pods (valid, missing PVC, refusing Karpenter nodes, unbound WaitForFirstConsumer PVC); then 1-10 (quick) / 1-20 (thorough) consecutive simulations drawn from {disruption.SimulateScheduling on candidate subsets of GetCandidates (method filter or any disruptable node, same Candidate objects re-used 1-3 times), every Method's ComputeCommands with real or all-zero budget mapping and no StartCommand, Provisioner.Schedule without creating NodeClaims} under {live, already expired, asynchronously cancelled, k-th API call times out} contexts, with occasional legitimate world changes in between (clock step, new pending pod, forgotten consolidation memo, one real disruption reconcile that starts commands). Around every simulation the complete digest (API objects + write log + provider calls, cluster state incl. unexported per-node maps, provider instance types/offerings incl. slice order) is compared. Non-trivial = a simulation executed inside a digest window; distinct by (kind, method, #candidates bucket, context mode, outcome). In the -race binary every second case runs its simulations concurrently with informer re-deliveries (SyncState in another goroutine).",
 		Cases: cases, Run: run,
 		Race: true, RaceIsViolation: false,
 		MinObserved: map[string]int{
